@@ -134,9 +134,11 @@ def coreImplMachine {σ : Type} (D : CoreDesc σ) (w : Nat) : Machine (Pool σ) 
         match fromHex x with
         | some b =>
           let p' := p.set (D.reinit (D.ivState s))
-          (match applyPartial D.K w s b with
-           | some o => (p', "out " ++ toHex o)
-           | none => (p', "err"))
+          -- the checked memory-level mirror, in place
+          (match MemWr.partialMem D.K w s (IOBuf.inplace b) with
+           | .ok o => (p', "out " ++ toHex o)
+           | .err _ => (p', "err")
+           | .panic => (p', "panic"))
         | none => (p, bad)
       | ["partialb", x, g] =>
         match fromHex x, fromHex g with
@@ -144,9 +146,11 @@ def coreImplMachine {σ : Type} (D : CoreDesc σ) (w : Nat) : Machine (Pool σ) 
           if b.length ≠ gb.length then (p, bad)
           else
             let p' := p.set (D.reinit (D.ivState s))
-            (match applyPartial D.K w s b with
-             | some o => (p', "out " ++ toHex o)
-             | none => (p', "err"))
+            -- … and into the output buffer's actual previous contents
+            (match MemWr.partialMem D.K w s (IOBuf.b2b b gb) with
+             | .ok o => (p', "out " ++ toHex o)
+             | .err o => (p', if o == gb then "err" else "errmod " ++ toHex o)
+             | .panic => (p', "panic"))
         | _, _ => (p, bad)
       | ["setpos", n] =>
         match n.toNat? with
